@@ -98,7 +98,9 @@ theorem executeCommand_unauthorized_noCall (pf : FloatOracle) (srv : SrvSt) (con
         · exact noCall_bind _ _ (hgate _ _ hne) (fun _ => .ret _)
         · split
           · exact noCall_bind _ _ (hgate _ _ hne) (fun _ => .ret _)
-          · exact .ret _
+          · split
+            · exact noCall_bind _ _ (hgate _ _ hne) (fun _ => .ret _)
+            · exact .ret _
 
 theorem handleArray_unauthorized_noCall (pf : FloatOracle) (srv : SrvSt) (conn : ConnSt) (f : Nat) (es : List Msg)
     (hu : conn.authorized = false) : NoCall (handleArray pf srv conn f es) := by
@@ -238,6 +240,8 @@ theorem executeCommand_gateStep (pf : FloatOracle) (srv : SrvSt) (conn : ConnSt)
         · exact post_bind _ _ _ (fun o => same o)
         · split
           · exact post_bind _ _ _ (fun o => same o)
-          · exact same _
+          · split
+            · exact post_bind _ _ _ (fun o => same o)
+            · exact same _
 
 end GoRedis
